@@ -362,6 +362,10 @@ func (pl *Plugin) NominateReservation(ctx context.Context, cycleState fwktype.Cy
 	}
 
 	if len(reservationInfos) == 1 && state.hasAffinity {
+		// the shortcut skips the nominate filters, so keep the allocate-once gate here
+		if rInfo := reservationInfos[0]; rInfo.IsAllocateOnce() && rInfo.GetAllocatedPods() > 0 {
+			return nil, nil
+		}
 		return reservationInfos[0], nil
 	}
 
